@@ -3,6 +3,7 @@ import RockitModel.Model.Transcribe
 import Mathlib.Tactic.NormNum
 import RockitModel.Proofs.Glue
 import RockitModel.Generated.Glue
+import RockitModel.Generated.Clone
 /-!
 # C09 — a parametric OCP is the family of OCPs with the values written in
 -/
@@ -120,5 +121,11 @@ theorem wrong_stride_breaks_it :
     splitByStride [(4, 2), (1, 1)] [11, 21, 12, 22, (7 : Nat)] ≠ splitBy [4, 1] [11, 21, 12, 22, 7] := by decide
 
 end concatenations
+
+
+/-! ### a later set_value replaces that parameter's value only — also among the instances of one template -/
+theorem parameter_values_are_per_stage :
+    (Rockit.Generated.cloneTable.filter (fun e => e.1 == "_param_vals")).all (fun e => e.2.1 == .copy || e.2.1 == .deepcopy) = true ∧
+    (Rockit.Generated.cloneTable.filter (fun e => e.1 == "_param_vals")).length = 1 := by decide
 
 end Rockit.C09
